@@ -32,25 +32,25 @@ theorem C01_iso_hms (st : PSettings) (ho : isoOrder st.order) (y m d h mi s : Na
 
 /-- **C01_iso_us**: `YYYY-MM-DD[ T]hh:mm:ss.ffffff` — exact to the microsecond -/
 theorem C01_iso_us (st : PSettings) (ho : isoOrder st.order) (y m d h mi s us : Nat) (hd : DateOk y m d) (ht : TimeOk h mi s) (hus : us ≤ 999999)
-    (ty tm td tf : List Char) (hty : ty.length = 4) (withT : Bool) :
+    (ty tm td tf : List Char) (hty : ty.length = 4) (withT : Bool) (iv : Option Nat) :
     absParseToks st ([rY ty y, rS tm m true, rS td d true] ++ (if withT then [rT] else []) ++
-        [rClock (pad2c h ++ [':'] ++ pad2c mi ++ [':'] ++ pad2c s) true, rFrac tf (frac6 us)]) =
+        [rClock (pad2c h ++ [':'] ++ pad2c mi ++ [':'] ++ pad2c s) true, rFrac tf (frac6 us) iv]) =
       .ok ({ y := y, mo := m, d := d, h := h, mi := mi, s := s, us := us }, if st.timeAsPeriod then .time else .day) := by
   have htm := time_hms_us h mi s us ht.h23 ht.m59 ht.s59 hus
   have e : pad2c h ++ [':'] ++ pad2c mi ++ [':'] ++ pad2c s ++ ['.'] ++ frac6 us = (pad2c h ++ [':'] ++ pad2c mi ++ [':'] ++ pad2c s) ++ '.' :: frac6 us := by simp
   rw [e] at htm
-  exact C01_iso_fraction st ho y m d hd ty tm td _ tf _ hty withT _ htm ⟨ht.h23, ht.m59, ht.s59, hus⟩
+  exact C01_iso_fraction st ho y m d hd ty tm td _ tf _ hty withT _ iv htm ⟨ht.h23, ht.m59, ht.s59, hus⟩
 
 /-- **C01_iso_ms**: `YYYY-MM-DD[ T]hh:mm:ss.fff` — exact to the millisecond -/
 theorem C01_iso_ms (st : PSettings) (ho : isoOrder st.order) (y m d h mi s ms : Nat) (hd : DateOk y m d) (ht : TimeOk h mi s) (hms : ms ≤ 999)
-    (ty tm td tf : List Char) (hty : ty.length = 4) (withT : Bool) :
+    (ty tm td tf : List Char) (hty : ty.length = 4) (withT : Bool) (iv : Option Nat) :
     absParseToks st ([rY ty y, rS tm m true, rS td d true] ++ (if withT then [rT] else []) ++
-        [rClock (pad2c h ++ [':'] ++ pad2c mi ++ [':'] ++ pad2c s) true, rFrac tf (frac3 ms)]) =
+        [rClock (pad2c h ++ [':'] ++ pad2c mi ++ [':'] ++ pad2c s) true, rFrac tf (frac3 ms) iv]) =
       .ok ({ y := y, mo := m, d := d, h := h, mi := mi, s := s, us := ms * 1000 }, if st.timeAsPeriod then .time else .day) := by
   have htm := time_hms_ms h mi s ms ht.h23 ht.m59 ht.s59 hms
   have e : pad2c h ++ [':'] ++ pad2c mi ++ [':'] ++ pad2c s ++ ['.'] ++ frac3 ms = (pad2c h ++ [':'] ++ pad2c mi ++ [':'] ++ pad2c s) ++ '.' :: frac3 ms := by simp
   rw [e] at htm
-  exact C01_iso_fraction st ho y m d hd ty tm td _ tf _ hty withT _ htm ⟨ht.h23, ht.m59, ht.s59, by show ms * 1000 ≤ 999999; omega⟩
+  exact C01_iso_fraction st ho y m d hd ty tm td _ tf _ hty withT _ iv htm ⟨ht.h23, ht.m59, ht.s59, by show ms * 1000 ≤ 999999; omega⟩
 
 /-- **C01_rfc2822_full**: `Www, DD Mon YYYY hh:mm:ss` -/
 theorem C01_rfc2822_full (st : PSettings) (y m d h mi s : Nat) (hd : DateOk y m d) (ht : TimeOk h mi s)
